@@ -197,7 +197,10 @@ func (f File) Validate() error {
 			if _, ok := customTypes[fd.name()]; ok {
 				return fmt.Errorf("union %s member has duplicated name %s", un.Name, fd.name())
 			}
-			customTypes[fd.name()] = struct{}{}
+			if un.Namespace == "" {
+				// members of a separately imported union are not importable on their own
+				customTypes[fd.name()] = struct{}{}
+			}
 			memberFieldNames := map[string]struct{}{}
 			var memberFields []Field
 			if fd.Struct != nil {
